@@ -67,10 +67,10 @@ def formatInt (i : Int) : List Char :=
   | .ofNat n => natDigits n
   | .negSucc n => '-' :: natDigits (n + 1)
 
-def isDigit (c : Char) : Bool := '0' ≤ c && c ≤ '9'
+def isDigit (c : Char) : Bool := c.isDigit
 
 def digitsToNat (cs : List Char) : Nat :=
-  cs.foldl (fun acc c => acc * 10 + (c.toNat - 48)) 0
+  cs.foldl (fun acc c => 10 * acc + (c.toNat - '0'.toNat)) 0
 
 /-- `int(s)` on the language `[+-]?[0-9]+`; everything else that Python might
 still accept (whitespace, underscores, non-ASCII digits) is `unmodelled`; strings
